@@ -39,10 +39,41 @@ class KernelForm:
         self.casts = list(ex.casts)
 
 
+class SharedKernel(Unsupported):
+    """compile_d_mat parks a kernel whose closure holds one instance's state on the class: recognised shape, wrong slot"""
+
+
+def _class_level_kernel(M: Model, c: ClassInfo, cd: FuncInfo):
+    sn = cd.self_name
+
+    def cls_attr(e) -> Optional[str]:
+        if isinstance(e, ast.Attribute):
+            b = norm(e.value)
+            if (b in M.classes and M.is_subclass(c.name, b)) or b in (f"type({sn})", f"{sn}.__class__"):
+                return e.attr
+        return None
+    from_self = {s.targets[0].id for s in walk_no_nested(cd.node) if isinstance(s, ast.Assign) and len(s.targets) == 1 and isinstance(s.targets[0], ast.Name)
+                 and any(isinstance(n, ast.Name) and n.id == sn for n in ast.walk(s.value))}
+    for s in walk_no_nested(cd.node):
+        if not isinstance(s, ast.Assign) or not isinstance(s.value, ast.Name):
+            continue
+        attrs = [a for a in map(cls_attr, s.targets) if a]
+        k = next((x for x in cd.nested if x.name == s.value.id), None)
+        if not attrs or k is None:
+            continue
+        free = {n.id for n in ast.walk(k.node) if isinstance(n, ast.Name) and isinstance(n.ctx, ast.Load)} - set(k.params)
+        held = sorted(free & from_self)
+        reads = [r for r in walk_no_nested(cd.node) if isinstance(r, ast.Return) and r.value is not None and cls_attr(r.value) in attrs]
+        if held and reads:
+            raise SharedKernel(f"the kernel `{k.name}` closes over {', '.join(held)} (state of the instance that compiled it) and is stored on the class as "
+                               f"`{attrs[0]}`, from where compile_d_mat hands it to every other instance: their own {', '.join(held)} never reaches their d_mat")
+
+
 def extract_d_mat(M: Model, c: ClassInfo) -> KernelForm:
     """formula of the compiled kernel returned by compile_d_mat()"""
     cd = M.find_method(c, "compile_d_mat")
     sn = cd.self_name
+    _class_level_kernel(M, c, cd)
     kernels = [n for n in cd.nested]
     rets = [n for n in walk_no_nested(cd.node) if isinstance(n, ast.Return) and n.value is not None]
     if len(rets) != 1 or not isinstance(rets[0].value, ast.Name):
@@ -136,6 +167,18 @@ def _derived_table_scale(M: Model, c: ClassInfo, field: str):
             continue
         delta_ctor = Rat.var("Δ₀") if delta_reassigned_after_construction(M) else Rat.var("Δ")
         env = {"matrix": Rat.var("@M"), "delta_empty": delta_ctor}
+        value = defs[0].value
+        while True:       # value-preserving array wrappers (layout / dtype / copy): the cells are the cells of the argument
+            if isinstance(value, ast.Call) and dotted(value.func) in ("np.ascontiguousarray", "np.asarray", "np.array", "np.copy", "numpy.ascontiguousarray", "numpy.asarray",
+                                                                      "numpy.array", "numpy.copy", "np.asfortranarray") and len(value.args) == 1 and \
+                    all(k.arg in ("dtype", "order", "copy") for k in value.keywords):
+                value = value.args[0]
+            elif isinstance(value, ast.Call) and isinstance(value.func, ast.Attribute) and value.func.attr in ("astype", "copy") and len(value.args) <= 1 and \
+                    not value.keywords and isinstance(value.func.value, (ast.BinOp, ast.Name, ast.Attribute, ast.Call)):
+                value = value.func.value
+            else:
+                break
+        defs = [ast.Assign(targets=defs[0].targets, value=value)]
         try:
             r = Extractor(env, attribute=lambda ex, e: (Rat.var("@M") if norm(e) == f"{init.self_name}._matrix" else
                                                           (delta_ctor if norm(e) == f"{init.self_name}.delta_empty" else None))).ev(defs[0].value)
